@@ -263,4 +263,21 @@ def r5_setters(ctx):
         ctx.ob("R5", "Config:writers", writers <= allowed, "only the documented setters, read_to_end! (save/restore) and the deserializer constructors write Config fields: %s" % sorted(writers - allowed), config=cfg)
 
 
-RULES = [("R1", r1_confinement), ("R2", r2_only_adds), ("R3", r3_empty_dropped), ("R4", r4_expand), ("R5", r5_setters)]
+def r6_trim_start_impl(ctx):
+    """trim_text_start is implemented by XmlSource::skip_whitespace: both implementations must skip the
+    whole whitespace run (the buffered one across refills) and account for it in the position."""
+    import consume
+    for cfg, F in ctx.facts.items():
+        consume.refill_completeness(ctx, "R6", F, cfg)
+        consume.slice_impl(ctx, "R6", F, cfg)
+        for b in F.bodies_with("slice_reader", "XmlSource", end="skip_whitespace"):
+            ok = False
+            for p in ctx.paths(b):
+                for c in calls(p):
+                    if name_is(c[2], "unwrap_or") and call_is(c[3][0], "position") and call_is(c[3][1], "len"):
+                        ok = True
+            ctx.ob("R6", "slice:skip_whitespace:all", ok, "the slice source skips up to the first non-whitespace byte, or everything if there is none", config=cfg)
+    ctx.obs[:] = [o for o in ctx.obs if not (o["rule"] == "R6" and "skip_whitespace" not in o["site"] and not o["site"].startswith("floor:"))]
+
+
+RULES = [("R1", r1_confinement), ("R2", r2_only_adds), ("R3", r3_empty_dropped), ("R4", r4_expand), ("R5", r5_setters), ("R6", r6_trim_start_impl)]
